@@ -992,7 +992,7 @@ pub fn smb_req() -> impl Strategy<Value = SmbReq> {
     prop_oneof![
         (smb1_hdr(0x72), vec(smb1_dialect_name(), 1..=8)).prop_map(|(hdr, dialects)| SmbReq::Smb1Negotiate { hdr, dialects }),
         (smb1_hdr(0x73), security_blob(), any::<[u16; 6]>(), any::<u32>(), vec(any::<u8>(), 0..24)).prop_map(|(hdr, blob, words, caps, trailer)| SmbReq::Smb1SessionSetup { hdr, blob: Hex(blob), words, caps, trailer: Hex(trailer) }),
-        (smb2_hdr(0), vec(prop_oneof![5 => prop::sample::select(SMB2_SUPPORTED.to_vec()), 2 => any::<u16>()], 1..=8), any::<u16>(), any::<u32>(), any::<[u8; 16]>(), vec(any::<u8>(), 0..24))
+        (smb2_hdr(0), prop_oneof![12 => vec(prop_oneof![5 => prop::sample::select(SMB2_SUPPORTED.to_vec()), 2 => any::<u16>()], 1..=8), 1 => Just(vec![])], any::<u16>(), any::<u32>(), any::<[u8; 16]>(), prop_oneof![3 => vec(any::<u8>(), 0..24), 1 => (prop::sample::select(SMB2_SUPPORTED.to_vec()), vec(any::<u8>(), 0..8)).prop_map(|(d, mut t)| { let mut v = d.to_le_bytes().to_vec(); v.append(&mut t); v })])
             .prop_map(|(hdr, dialects, secmode, caps, guid, trailer)| SmbReq::Smb2Negotiate { hdr, dialects, secmode, caps, guid, trailer: Hex(trailer) }),
         (smb2_hdr(1), security_blob(), any::<u8>(), any::<u8>(), any::<u32>(), any::<u32>(), any::<u64>())
             .prop_map(|(hdr, blob, flags, secmode, caps, channel, prev)| SmbReq::Smb2SessionSetup { hdr, blob: Hex(blob), flags, secmode, caps, channel, prev }),
